@@ -532,3 +532,67 @@ impl OriginAndExtra {
         self.origin().edges()
     }
 }
+
+//@ob id=K-QREV-1 kind=B bound=sequence-length=1 props=C02,C11 timeout=1200 fn=QueryRevisions::discard_edges_if_never_change
+//@ pre: memo revisions with one input edge, any durability, origin derived or derived-untracked, with or without a cycle head, accumulated-inputs flag Empty or Any
+//@ post: edges are discarded only if durability == NEVER_CHANGE && origin is fully tracked Derived && no cycle heads && no accumulated inputs; in every other case the edge is still there; extra data (cycle heads) is never lost
+#[cfg_attr(kani, kani::proof)]
+#[cfg_attr(kani, kani::unwind(5))]
+#[cfg_attr(salsa_verif_replay, test)]
+fn k_qrev_1_discard_edges_if_never_change() {
+    let e = QueryEdge::input(vk::key(1, 3));
+    let d = vk::any_durability();
+    let untracked: bool = vk::any();
+    let has_head: bool = vk::any();
+    let acc_any: bool = vk::any();
+    let stamp = IterationStamp::initial(0);
+    let extra = if has_head { extra_with_head(vk::key(0, 2), stamp) } else { QueryRevisionsExtra(None) };
+    let origin = if untracked {
+        OriginAndExtra::derived_untracked([e].into_iter(), extra)
+    } else {
+        OriginAndExtra::derived([e].into_iter(), extra)
+    };
+    let mut r = revs(d, Revision::start(), !has_head, origin);
+    if acc_any {
+        r.accumulated_inputs.store(InputAccumulatedValues::Any);
+    }
+    r.discard_edges_if_never_change();
+    let may_discard = d == Durability::NEVER_CHANGE && !untracked && !has_head && !acc_any;
+    let mut it = r.origin().edges().iter();
+    if may_discard {
+        // (the converse is an optimisation: C02 only needs "never discarded otherwise")
+        let _ = it.next();
+    } else {
+        assert!(it.next() == Some(e));
+        assert!(it.next().is_none());
+    }
+    assert!(r.is_derived_untracked() == untracked);
+    assert!(r.cycle_heads().is_empty() == !has_head);
+    assert!(r.durability == d);
+    vcover!();
+    std::mem::forget(r);
+}
+
+//@ob id=K-QREV-2 kind=C props=C25,C11 fn=QueryRevisionsExtra::new
+//@ pre: no accumulated values, no tracked structs; cycle heads empty or one head; iteration stamp default or not; force flag symbolic
+//@ post: no extra storage <=> nothing to store && !force; otherwise the stored heads and iteration read back, cycle_converged starts false
+#[cfg_attr(kani, kani::proof)]
+#[cfg_attr(kani, kani::unwind(5))]
+#[cfg_attr(salsa_verif_replay, test)]
+fn k_qrev_2_extra_new() {
+    let has_head: bool = vk::any();
+    let it: u8 = vk::any();
+    let stamp = IterationStamp::initial(it);
+    let force: bool = vk::any();
+    let heads = if has_head { CycleHeads::initial(vk::key(0, 2), stamp) } else { empty_cycle_heads().clone() };
+    let x = QueryRevisionsExtra::new(Default::default(), ThinVec::new(), heads, stamp, force);
+    assert!(x.0.is_none() == (!force && !has_head && it == 0));
+    if let Some(inner) = &x.0 {
+        assert!(inner.cycle_heads.is_empty() == !has_head);
+        assert!(inner.iteration.load() == stamp);
+        assert!(!inner.cycle_converged);
+        assert!(inner.tracked_struct_ids.is_empty());
+    }
+    vcover!();
+    std::mem::forget(x);
+}
